@@ -9,7 +9,7 @@ def run(chk):
                 "sample) is executed on a real credential with a real accumulator chain (1024-bit keys): NonrevPrepareCache (cached builder's index checked through a "
                 "verif accessor), Accumulator.Remove, Witness.Update (ErrorRevoked exactly for the revoked witness), CreateDisclosureProof(nonrev) whose proof must "
                 "verify (also after a JSON round trip) and embed the accumulator index the spec says it was made against - including proofs made after UpdateCommit "
-                "refreshed a cached commitment -, and 14 manipulations of the proof (commitments, each response, alpha response, older/newer/other-chain/garbled "
+                "refreshed a cached commitment -, and 17 manipulations of the proof (commitments multiplied by 4 or replaced by a representative of 0 mod n, a proof built from scratch by the holder - revoked or not - around Cr = Cu = 0 mod n with zeros hashed for the verifier's reconstructed commitments and the issuer's newest accumulator embedded, each response, alpha response, older/newer/other-chain/garbled "
                 "accumulator, transplanted non-revocation part of another holder, stripped part, witness attribute disclosed) which must all be rejected. "
                 "Known finding D10 is constructed deliberately and reported as KNOWN-FINDING. Non-trivial = distinct history.")
     chk.assumptions = ["soundness of the Sigma protocol itself is assumed (generic group); manipulations are structural/algebraic",
